@@ -1,4 +1,5 @@
 import TuModel.Drive.TextD
+import TuModel.Drive.EditD
 open Tu.Drive
 
 def handle (line : String) : String :=
@@ -8,7 +9,7 @@ def handle (line : String) : String :=
     match rest.mapM String.toNat? with
     | none => "bad-request"
     | some args =>
-      match textD op args with
+      match (textD op args).orElse (fun _ => editD op args) with
       | some r => r
       | none => "unknown-op"
 
